@@ -113,6 +113,9 @@ impl WorldA {
                 return Op::new(K_SUBMITBURST, i as u64, d as u64, rng.below(n as u64), tiny + rng.below(61 * 7));
             }
         }
+        if matches!(self.fam, Fam::Api) && self.cfg.get("evlazy") == 1 && rng.chance(1, 60) {
+            return Op::new(K_CHURN, i as u64, rng.below(101), 0, 0);
+        }
         let pick = rng.weighted(&w);
         match pick {
             0 => {
